@@ -74,6 +74,8 @@ func C12(e *Env) {
 			r.Undecide("R12.1-control", "fixtures/ctl#LookupDeref", fmt.Sprintf("control not reproduced (unguarded %d, guarded %d): the rule is blind or over-eager", bad, good))
 		}
 	}
+	ruleE(e, "R10.4")
+	r.Rule("R10.4", "no error is dropped (shared with C10): a value returned next to a discarded error may be nil, and using it panics (`fi, _ := os.Stat(p); fi.IsDir()`)", 50)
 	c12Recursion(e)
 	c12Loops(e)
 	c12Repeat(e)
